@@ -145,6 +145,23 @@ def execute(ctx, case: dict) -> None:
         kw = case.get("kwargs", {})
         top = sc.build_ace(case["top"], platform, **kw)
         bottom = sc.build_ace(case["bottom"], platform, **kw)
+        if case.get("twin"):
+            # the bottom starts its life as a rebuild of the top *with its uuid* (Ace(**top.data(uuid=True))) and is then
+            # given its own text and members: two different entries that carry one identifier
+            from cisco_acl import Ace  # pylint: disable=import-outside-toplevel
+
+            try:
+                twin = Ace(**top.data(uuid=True))
+                twin.line = bottom.line
+                if case["bottom"].get("src_items"):
+                    twin.srcaddr.items = list(case["bottom"]["src_items"])
+                if case["bottom"].get("dst_items"):
+                    twin.dstaddr.items = list(case["bottom"]["dst_items"])
+                if twin.uuid == top.uuid and twin.line == bottom.line:
+                    bottom = twin
+                    ctx.count("pairs_sharing_one_uuid")
+            except (ValueError, TypeError):
+                pass
         answers = {}
         for skip in sc.SKIP_SETS:
             try:
@@ -300,6 +317,8 @@ def run(ctx, exact: bool = False, groups: bool = True) -> None:
             case = {"k": "pair", "platform": platform, **pair}
             if rng.random() < 0.35:
                 case["kwargs"] = {"port_nr": rng.random() < 0.5, "protocol_nr": rng.random() < 0.7}
+            if rng.random() < 0.12:
+                case["twin"] = True
             grouped = [(w, sd) for w in ("top", "bottom") for sd in ("src", "dst") if case[w].get(sd + "_items")]
             if grouped and rng.random() < 0.6:
                 from vcheck.checks.C13 import rand_cube, spell  # pylint: disable=import-outside-toplevel
